@@ -1,6 +1,7 @@
 package rescache
 
 import "sync"
+import "github.com/resgateio/resgate/server/verifhook"
 
 // Throttle ensures that only a set number of callbacks are running at the same
 // time. Once a callback is complete, it should call Done to let next queued
@@ -58,5 +59,9 @@ func (t *Throttle) Done() {
 	cb := t.queue[0]
 	t.queue = t.queue[1:]
 	t.mu.Unlock()
+	if verifhook.Enabled {
+		verifhook.Go("throttle", cb)
+		return
+	}
 	go cb()
 }
